@@ -86,7 +86,7 @@ impl Family for C03 {
             WrBackend::Adapter { plan }
         };
         let rate = if rng.chance(1, 2) { rng.below(31) } else { 0 };
-        let sel = rng.below(6);
+        let sel = rng.below(8);
         let rbackend = gen_rd_backend(rng, sel, rate, 600);
         let mut elems = elems;
         // u8 reader + decoding tables is a recorded known finding; over a zero-extended
